@@ -312,5 +312,17 @@ def view_OutMsg (vtx : Val → Val) : Val → Val
       ("imported", view_InMsg vtx (x.get "imported"))]
   | _ => .unit
 
+/-- a concrete transaction (`trans_storage` description, no messages, 5 nanograms of fees) -/
+def exampleTransaction : Val := .record [
+  ("account_addr", .bits (List.replicate 256 false)), ("lt", .int 7), ("prev_trans_hash", .bits (List.replicate 256 true)),
+  ("prev_trans_lt", .int 6), ("now", .int 1700000000), ("outmsg_cnt", .int 0),
+  ("orig_status", .con "acc_state_active" .unit), ("end_status", .con "acc_state_active" .unit),
+  ("_ref1", .record [("in_msg", .unit), ("out_msgs", .con "hme_empty" .unit)]),
+  ("total_fees", .record [("grams", .int 5), ("other", .record [("dict", .con "hme_empty" .unit)])]),
+  ("state_update", .record [("old_hash", .bits (List.replicate 256 false)), ("new_hash", .bits (List.replicate 256 true))]),
+  ("description", .con "trans_storage" (.record [("storage_ph", .record [("storage_fees_collected", .int 5),
+      ("storage_fees_due", .unit), ("status_change", .con "acst_unchanged" .unit)])]))]
+
+
 end Tx
 end TonVerif.Tlb
